@@ -43,19 +43,19 @@ pub fn defs() -> Vec<PropDef> {
         PropDef {
             id: "C09",
             profiles: BOTH,
-            shards: one,
+            shards: sixteen,
             run: run_c09,
             replay: replay_c09,
             post: |_, g, _| {
-                for k in ["nonempty-prefix", "sequence-of-3", "overwrite-recorded", "prefix-over-64-octets", "far-positions"] {
+                for k in ["nonempty-prefix", "sequence-of-3", "overwrite-recorded", "prefix-over-64-octets", "far-positions", "value-space-position"] {
                     if !g.contains_key(k) {
                         return Err(format!("C09 guard {k} never hit"));
                     }
                 }
                 Ok(())
             },
-            rule: "HIST: stateright breadth-first search; state = the real VecWriter next to a Vec<u8> model; initial states = writers already holding {0, 1, 7, 300} octets; actions = encode one entry of a 14-entry menu (control ZLB / with AVPs / with a 1023-octet AVP, data with and without optional fields, single AVPs incl. hidden and 300-octet payloads); after every action the writer must equal the old content followed by the encoding of that value into an empty writer; additionally every menu entry and every pair is encoded at 17 far writer positions (2^8 .. 2^63, on a Writer that pretends to hold the earlier octets) and into real VecWriters holding 64 KiB +- a few octets. Every history is also run through a Writer that records positional overwrites: each must lie inside the value currently being encoded, and the result must equal the VecWriter's. Non-trivial: states at depth >= 1.",
-            bounds: |t| json!({"prefixes_octets": [0, 1, 7, 300], "menu": 14, "depth": if t.thorough() {4} else {3}, "far_positions": FAR_BASES.to_vec(), "real_prefixes_octets": [65530, 65534, 65535, 65536, 65537, 70000, 131071, 131072]}),
+            rule: "HIST: stateright breadth-first search; state = the real VecWriter next to a Vec<u8> model; initial states = writers already holding {0, 1, 7, 300} octets; actions = encode one entry of a 16-entry menu (control ZLB / with AVPs / with a 1023-octet AVP, data with and without optional fields, single AVPs incl. hidden and 300-octet payloads); after every action the writer must equal the old content followed by the encoding of that value into an empty writer; additionally every menu entry and every pair is encoded at 17 far writer positions (2^8 .. 2^63, on a Writer that pretends to hold the earlier octets) and into real VecWriters holding 64 KiB +- a few octets. Every history is also run through a Writer that records positional overwrites: each must lie inside the value currently being encoded, and the result must equal the VecWriter's. ENUM pre-pass: every history up to depth 2 (3) into one live VecWriter and every far-position case as attributed cases. ENUM over the value space V of C03/C06 (every AVP value, header-field sweep, AVP lists, long lists, data messages incl. the 16-bit sweep of every field; 16 workers): each value encoded three times into one live VecWriter already holding 7 octets, into a VecWriter holding exactly 1 octet, and twice into another conforming Writer positioned at 65 533, with the same oracle. Non-trivial: states at depth >= 1 and every value of V that the encoder accepts.",
+            bounds: |t| json!({"prefixes_octets": [0, 1, 7, 300], "menu": 16, "value_space": "V as for C03 (domain values), x {live writer with 7 octets x3 copies, exact-capacity writer with 1 octet, other Writer at 65533 x2 copies}", "depth": if t.thorough() {4} else {3}, "far_positions": FAR_BASES.to_vec(), "real_prefixes_octets": [65530, 65534, 65535, 65536, 65537, 70000, 131071, 131072]}),
             assumptions: COMMON_ASSUMPTIONS,
             fd_monitor: false,
             mem_gb: |_| 16,
@@ -1108,6 +1108,8 @@ fn enc_menu() -> Vec<(&'static str, EncItem)> {
         ("avp-hidden", EncItem::Avp(SAvp::Hidden { attr: 7, value: ramp(16) })),
         ("avp-empty", EncItem::Avp(vgen::canonical(39))),
         ("avp-call-errors", EncItem::Avp(vgen::canonical(34))),
+        ("data-length-only", data(false, Some(13), None, None, 5)),
+        ("data-offset-only", data(false, None, None, Some(2), 4)),
     ]
 }
 
@@ -1330,6 +1332,14 @@ fn live_enc_histories(ctx: &mut Ctx, depth: usize) {
 }
 
 fn run_c09(ctx: &mut Ctx) {
+    if ctx.shard == 0 {
+        run_c09_histories(ctx);
+    }
+    // position independence over the whole value space, all workers
+    super::values::run_values(ctx);
+}
+
+fn run_c09_histories(ctx: &mut Ctx) {
     let depth = if ctx.tier.thorough() { 4 } else { 3 };
     // pre-pass of the ENUM engine: short histories on one live writer as attributed cases
     live_enc_histories(ctx, if ctx.tier.thorough() { 3 } else { 2 });
@@ -1538,6 +1548,9 @@ fn far_positions(ctx: &mut Ctx, alone: &[Vec<u8>]) {
 }
 
 fn replay_c09(ctx: &mut Ctx, v: &Value) {
+    if !matches!(v["kind"].as_str(), Some("enc-history") | Some("far-position") | Some("far-position-avp")) {
+        return super::values::replay_values(ctx, v);
+    }
     if v["kind"].as_str() == Some("far-position-avp") {
         let k = v["menu_index"].as_u64().unwrap_or(0) as usize;
         let base = v["base"].as_u64().unwrap_or(0) as usize;
